@@ -169,7 +169,14 @@ func TestProp(t *testing.T) {
 	o := opts()
 	rapid.Check(t, func(t *rapid.T) {
 		p := gen.Program(t, o)
+		// a quarter of the programs run without waiting for the background flush
+		// between steps: flushes (and the table switches of small memtables) then
+		// happen WHILE the client writes and reads
+		p.Cfg.NoQuiesce = rapid.IntRange(0, 3).Draw(t, "noquiesce") == 0
 		nt, classes := classify(&p)
+		if p.Cfg.NoQuiesce {
+			classes = append(classes, "background_flush_not_awaited_between_steps")
+		}
 		mm := runCase(&p)
 		ev.R().Case(ev.Hash(&p), nt, classes, func() any { return &p })
 		if mm != nil {
